@@ -32,8 +32,109 @@ var Quirks = []Quirk{
 	{ID: "C01-two-schemes-same-type", Detect: hasTwoSchemesSameType, SigAny: []string{"redeclared", "duplicate method"}},
 	{ID: "C01-body-fields-user-type", Detect: hasBodyFieldsUserType, SigAny: []string{"client/types: cannot use _ (variable of type *struct{…}"}},
 	{ID: "C01-body-fields-inline-required", Detect: hasBodyFieldsInlineRequired, SigAny: []string{"== nil (mismatched types", "cannot indirect"}},
+	{ID: "C01-grpc-metadata-alias-length-validation-gen-panic", Detect: hasGRPCMetadataAliasLength, SigAny: []string{"gen-panic"}},
+	{ID: "C01-grpc-metadata-alias-type", Detect: hasGRPCMetadataAlias, SigAny: []string{"undefined: _", "cannot convert _"}},
+	{ID: "C01-grpc-response-metadata", Detect: hasGRPCResponseMetadata, SigAny: []string{"encode_decode: undefined: _", "encode_decode: declared and not used", "as *string value in assignment"}},
+	{ID: "C01-grpc-only-design-example-main", Detect: isGRPCOnly, SigAny: []string{"cmd: undefined: _"}},
+	{ID: "C01-gen-hangs-grpc-recursive-type", Detect: hasGRPCRecursiveType, SigAny: []string{"timeout"}},
 	{ID: "C01-response-cookie-nonstring", Detect: hasNonStringResponseCookie, SigAny: []string{"server/encode_decode"}},
 	{ID: "C01-result-type-required-validated-response-header", Detect: hasResultTypeRequiredValidatedHeader, SigAny: []string{"client/encode_decode: invalid operation: _ != nil (mismatched types"}},
+}
+
+// hasGRPCMetadataAliasLength: request metadata mapped to an attribute whose
+// type is a primitive alias user type carrying a length validation.
+func hasGRPCMetadataAliasLength(d *m.Design) bool {
+	return eachMethod(d, func(s *m.Service, meth *m.Method) bool {
+		if meth.GRPC == nil || meth.Payload == nil {
+			return false
+		}
+		for _, mp := range meth.GRPC.Metadata {
+			if f := d.FieldByName(meth.Payload, mp.Attr); f != nil && f.Attr.Type.Kind == m.User {
+				if v := MergedValidation(d, f.Attr); v.MinLen != nil || v.MaxLen != nil {
+					return true
+				}
+			}
+		}
+		return false
+	})
+}
+
+// hasGRPCMetadataAlias: request metadata mapped to an attribute whose type is
+// (or is an array of) a primitive alias user type.
+func hasGRPCMetadataAlias(d *m.Design) bool {
+	return eachMethod(d, func(s *m.Service, meth *m.Method) bool {
+		if meth.GRPC == nil || meth.Payload == nil {
+			return false
+		}
+		for _, mp := range meth.GRPC.Metadata {
+			if f := d.FieldByName(meth.Payload, mp.Attr); f != nil {
+				if f.Attr.Type.Kind == m.User || f.Attr.Type.Kind == m.Array && f.Attr.Type.Elem.Type.Kind == m.User {
+					return true
+				}
+			}
+		}
+		return false
+	})
+}
+
+// hasGRPCResponseMetadata: a gRPC response maps a result attribute to header or trailer metadata.
+func hasGRPCResponseMetadata(d *m.Design) bool {
+	return eachMethod(d, func(s *m.Service, meth *m.Method) bool {
+		return meth.GRPC != nil && len(meth.GRPC.Headers)+len(meth.GRPC.Trailers) > 0
+	})
+}
+
+// isGRPCOnly: no service with an HTTP transport.
+func isGRPCOnly(d *m.Design) bool {
+	grpc := false
+	for _, s := range d.Services {
+		if s.HasHTTP {
+			return false
+		}
+		grpc = grpc || s.HasGRPC
+	}
+	return grpc
+}
+
+// hasGRPCRecursiveType: a gRPC payload or result reaches a user type that refers to itself.
+func hasGRPCRecursiveType(d *m.Design) bool {
+	return eachMethod(d, func(s *m.Service, meth *m.Method) bool {
+		if meth.GRPC == nil {
+			return false
+		}
+		seen := map[string]bool{}
+		var walk func(a *m.Attr) bool
+		walk = func(a *m.Attr) bool {
+			if a == nil || a.Type == nil {
+				return false
+			}
+			switch a.Type.Kind {
+			case m.User:
+				if isRecursiveType(d, a.Type.User) {
+					return true
+				}
+				if seen[a.Type.User] {
+					return false
+				}
+				seen[a.Type.User] = true
+				if ut := d.TypeByName(a.Type.User); ut != nil {
+					return walk(ut.Attr)
+				}
+			case m.Array:
+				return walk(a.Type.Elem)
+			case m.Map:
+				return walk(a.Type.Key) || walk(a.Type.Val)
+			case m.Object, m.Union:
+				for _, f := range a.Type.Fields {
+					if walk(f.Attr) {
+						return true
+					}
+				}
+			}
+			return false
+		}
+		return walk(meth.Payload) || walk(meth.Result)
+	})
 }
 
 // hasNonStringResponseCookie: a result attribute that is not a String mapped to a response cookie.
